@@ -1,37 +1,41 @@
 //! splitmix64: every random choice of a run derives from one state (VERIF_SEED).
+//! Interior mutability so that draws can be nested in argument positions.
+
+use std::cell::Cell;
 
 #[derive(Clone, Debug)]
-pub struct Prng(pub u64);
+pub struct Prng(pub Cell<u64>);
 
 impl Prng {
     pub fn new(seed: u64) -> Self {
-        Prng(seed ^ 0x9E37_79B9_7F4A_7C15)
+        Prng(Cell::new(seed ^ 0x9E37_79B9_7F4A_7C15))
     }
-    pub fn next_u64(&mut self) -> u64 {
-        self.0 = self.0.wrapping_add(0x9E37_79B9_7F4A_7C15);
-        let mut z = self.0;
+    pub fn next_u64(&self) -> u64 {
+        let s = self.0.get().wrapping_add(0x9E37_79B9_7F4A_7C15);
+        self.0.set(s);
+        let mut z = s;
         z = (z ^ (z >> 30)).wrapping_mul(0xBF58_476D_1CE4_E5B9);
         z = (z ^ (z >> 27)).wrapping_mul(0x94D0_49BB_1331_11EB);
         z ^ (z >> 31)
     }
-    pub fn next_u128(&mut self) -> u128 {
+    pub fn next_u128(&self) -> u128 {
         ((self.next_u64() as u128) << 64) | self.next_u64() as u128
     }
     /// uniform in 0..n (n > 0)
-    pub fn below(&mut self, n: u64) -> u64 {
+    pub fn below(&self, n: u64) -> u64 {
         self.next_u64() % n
     }
-    pub fn chance(&mut self, num: u64, den: u64) -> bool {
+    pub fn chance(&self, num: u64, den: u64) -> bool {
         self.below(den) < num
     }
-    pub fn pick<'a, T>(&mut self, xs: &'a [T]) -> &'a T {
+    pub fn pick<'a, T>(&self, xs: &'a [T]) -> &'a T {
         &xs[self.below(xs.len() as u64) as usize]
     }
-    pub fn bytes(&mut self, n: usize) -> Vec<u8> {
+    pub fn bytes(&self, n: usize) -> Vec<u8> {
         (0..n).map(|_| self.next_u64() as u8).collect()
     }
     /// a value with a random bit width up to `bits` (log-uniform magnitudes)
-    pub fn log_u128(&mut self, bits: u32) -> u128 {
+    pub fn log_u128(&self, bits: u32) -> u128 {
         let w = self.below(bits as u64 + 1) as u32;
         if w == 0 {
             0
@@ -41,7 +45,7 @@ impl Prng {
             self.next_u128() & ((1u128 << w) - 1) | (1u128 << (w - 1))
         }
     }
-    pub fn fork(&mut self) -> Prng {
-        Prng(self.next_u64())
+    pub fn fork(&self) -> Prng {
+        Prng(Cell::new(self.next_u64()))
     }
 }
